@@ -122,7 +122,9 @@ def countedP {α : Type} (tag : String) (f : List String → Option (α × List 
   | _ => none
 
 mutual
-partial def parseProgInv (toks : List String) : Option ((Prog × Env) × List String) :=
+/-- an invocation: the program, the assignment, and the same assignment with every string of every
+    level blanked (`blankEnv`; opaque children replaced by their `shape`) -/
+partial def parseProgInv (toks : List String) : Option ((Prog × Env × Env) × List String) :=
   match toks with
   | name :: r => do
     let p ← (Generated.pagePrograms.lookup name)
@@ -139,14 +141,17 @@ partial def parseProgInv (toks : List String) : Option ((Prog × Env) × List St
     let (lists, r) ← countedP "L" (fun r => match r with
       | m :: r => (m.toNat?).bind fun m => repeatP parseProgKid m r
       | [] => none) r
-    pure ((p, { strs := strs, ints := ints, bools := bools, kids := kids, lists := lists, raws := raws, ga := ga }), r)
+    let ρ : Env := { strs := strs, ints := ints, bools := bools, kids := kids.map (·.1),
+                     lists := lists.map (·.map (·.1)), raws := raws, ga := ga }
+    let ρb : Env := { blankEnv ρ with kids := kids.map (·.2), lists := lists.map (·.map (·.2)) }
+    pure ((p, ρ, ρb), r)
   | [] => none
-partial def parseProgKid (toks : List String) : Option (Comp × List String) :=
+partial def parseProgKid (toks : List String) : Option ((Comp × Comp) × List String) :=
   match toks with
   | "P" :: r => do
-    let ((p, ρ), r) ← parseProgInv r
-    pure (eval ρ p, r)
-  | _ => parseHtmlComp toks
+    let ((p, ρ, ρb), r) ← parseProgInv r
+    pure ((eval ρ p, eval ρb p), r)
+  | _ => (parseHtmlComp toks).map fun (c, r) => ((c, shape c), r)
 end
 
 def showLexState : LState → String
@@ -199,10 +204,11 @@ def handleHtml (cmd : String) (rest : List String) : Option String :=
     -- a regenerated component program under the harness's hole values: the bytes it renders, and
     -- progOk / envOk / trusted / wellNested / "same skeleton as with every string blanked"
     match parseProgInv rest with
-    | some ((p, ρ), []) =>
+    | some ((p, ρ, ρb), []) =>
       let c := eval ρ p
       let out := render c
-      let same := skeleton out == skeleton (render (eval (blankEnv ρ) p))
+      -- an instance of assembly_structure_preserved: every string of every level blanked
+      let same := skeleton out == skeleton (render (eval ρb p))
       some (toHex out ++ " ok=" ++ b2s (progOk p) ++ b2s (envOk ρ) ++ b2s (trusted c) ++ b2s (wellNested out) ++ b2s same)
     | _ => some "bad-op"
   | "progs" =>
